@@ -68,7 +68,7 @@ Words ==
              "plus", "is", "dan", "katten", "de", "huis">> ]
 
 \* separators between words of a generated text
-Seps == <<" ", ", ", ". ", "-", "; ", " - ", "  ", "! ">>
+Seps == <<" ", ", ", ". ", "-", "; ", " - ", "  ", "! ", "- ", " -", "' ", "-, ">>
 \* a strong separator (C10): >= 3 ordinary (non-number, non-linking) words ending a sentence
 StrongSep ==
   [ en |-> <<" green cars arrived. ", " went home today. ">>,
